@@ -20,13 +20,16 @@ package ice
 
 // IPv4-compatible (first 12 bytes zero) and site-local (fec0::/10) IPv6 addresses
 // are never candidates; anything that is not 16 bytes long is not IPv6.
+// ::1 (RFC 4291 2.5.3) lies in ::/96 but is the loopback address, not an IPv4-compatible one.
+//@ spec macro isV6Loopback(ip net.IP) = (forall j int :: ip.off <= j && j < ip.off + 15 ==> elems(ip)[j] == 0) && elems(ip)[ip.off + 15] == 1
 //@ func isSupportedIPv6Partial
 //@   props C18
 //@   pure
 //@   ensures needs-sixteen-bytes: len(ip) != 16 ==> !result
-//@   ensures rejects-ipv4-compatible: len(ip) == 16 && (forall j int :: ip.off <= j && j < ip.off + 12 ==> elems(ip)[j] == 0) ==> !result
+//@   ensures rejects-ipv4-compatible: len(ip) == 16 && (forall j int :: ip.off <= j && j < ip.off + 12 ==> elems(ip)[j] == 0) && !isV6Loopback(ip) ==> !result
 //@   ensures rejects-site-local: len(ip) == 16 && elems(ip)[ip.off] == 254 && (elems(ip)[ip.off + 1] / 64) % 4 == 3 ==> !result
 //@   ensures accepts-the-rest: len(ip) == 16 && (exists j int :: ip.off <= j && j < ip.off + 12 && elems(ip)[j] != 0) && !(elems(ip)[ip.off] == 254 && (elems(ip)[ip.off + 1] / 64) % 4 == 3) ==> result
+//@   ensures the-ipv6-loopback-is-not-an-ipv4-compatible-address: len(ip) == 16 && isV6Loopback(ip) ==> result
 
 // Port window of sockets the agent opens itself: an explicit port is used as is;
 // otherwise every attempt uses a port inside [min or 1024, max or 65535] and the
@@ -124,6 +127,7 @@ package ice
 //@ func (*Agent).gatherCandidatesLocal
 //@   props C18
 //@   opt nosafety
+//@   site call gatherCandidatesLocalUDPMux#1 assert mux-host-candidates-only-if-a-udp-type-is-enabled: has(networks, "udp")
 //@   loop 1 invariant only-tcp-and-udp-keys: forall k string :: has(networks, k) ==> k == "tcp" || k == "udp"
 //@   loop 1 invariant udp-only-if-a-udp-type-is-enabled: has(networks, "udp") ==> exists j int :: 0 <= j && j <= rangeindex && old(networkTypes[j]) != NetworkTypeTCP4 && old(networkTypes[j]) != NetworkTypeTCP6
 //@   loop 1 invariant tcp-only-if-a-tcp-type-is-enabled: has(networks, "tcp") ==> exists j int :: 0 <= j && j <= rangeindex && (old(networkTypes[j]) == NetworkTypeTCP4 || old(networkTypes[j]) == NetworkTypeTCP6)
